@@ -110,8 +110,18 @@ class AbsFunc:
         values = [ba.arguments[n] for n in a.names]
         if any(isinstance(v, SymArray) and v.ndim > 0 for v in values):
             # user functions are pure and act elementwise on arrays (assumption, DESIGN 4.3)
+            from .ctx import cur, has_ctx
             from .values import elementwise
 
+            if has_ctx():
+                stack = []
+                try:
+                    from .exec import CURRENT_INTERP
+
+                    stack = list(CURRENT_INTERP[0].stack) if CURRENT_INTERP else []
+                except ImportError:  # pragma: no cover
+                    pass
+                cur().events.append({"kind": "array-application", "name": a.name, "in_targets": any(q.endswith("simulate._compute_targets") for q in stack)})
             outs = [elementwise(values, (lambda o: lambda *es: a.F[o](*[_to_real(e) for e in es]))(o), a.ret) for o in range(len(a.F))]
         else:
             outs = [T(self.term(values, o)) for o in range(len(a.F))]
